@@ -183,7 +183,7 @@ theorem build_fails_of_bad (rx : RegexOk) (lim : Nat) (sn sd : Bool) (t : Ast) (
       split
       · simp [Bad] at hb
       · rename_i hne
-        have h := ihg ⟨n, st.firstInput⟩
+        have h := ihg ⟨n, st.firstInput, st.predInput⟩
         dsimp only at h
         split at h
         · exact absurd rfl (hne · )
@@ -191,7 +191,7 @@ theorem build_fails_of_bad (rx : RegexOk) (lim : Nat) (sn sd : Bool) (t : Ast) (
     · simp only [Bad, Bool.or_eq_true] at hb
       rcases hb with hb | hb
       · exact Fails.bind fun o _ => Fails.bind_left (axisPlan_fails a fl _ _ hb)
-      · refine Fails.bind_left (ihi ⟨n, st.firstInput⟩ ?_)
+      · refine Fails.bind_left (ihi ⟨n, st.firstInput, st.predInput⟩ ?_)
         have : (build.inFlagsOf a fl).take = 0 := by unfold build.inFlagsOf; split <;> rfl
         rw [this]
         simpa [Bad] using hb
@@ -202,7 +202,7 @@ theorem build_fails_of_bad (rx : RegexOk) (lim : Nat) (sn sd : Bool) (t : Ast) (
     refine enter_fails fun n => ?_
     rcases hb with hb | hb
     · exact Fails.bind fun o _ => Fails.bind_left (axisPlan_fails a fl _ _ hb)
-    · refine Fails.bind_left (ih ⟨n, st.firstInput⟩ ?_)
+    · refine Fails.bind_left (ih ⟨n, st.firstInput, st.predInput⟩ ?_)
       have : (build.inFlagsOf a fl).take = 0 := by unfold build.inFlagsOf; split <;> rfl
       rw [this]
       exact hb
